@@ -49,6 +49,7 @@ struct MDoc {
   uint64_t epoch = 0;  // bumped by document-level operations (all handles die)
   int ledger = 0;      // which ledger the document currently owns
   bool default_alloc = false;
+  unsigned shrinks = 0;  // shrinkToFit() calls since the pools were last released (KF shrink_burns_pool_ids)
 };
 
 struct MHandle {
@@ -139,6 +140,7 @@ struct Options {
   bool doc_level_ops = true;
   bool deserialize_ops = true;
   bool reduced_alphabet = false;  // bounded-exhaustive mode
+  long max_shrinks = -1;          // >= 0: KF shrink_burns_pool_ids active, at most that many shrinks per pool lifetime
 };
 
 struct Stats {
